@@ -170,6 +170,12 @@ def model_batch(e, jobs):
     with ThreadPoolExecutor(n) as ex:
         for o in ex.map(one, [c for c in chunks if c]):
             res.update(o)
+        # a batch process that was killed (time-out under load) or died takes the rest of its chunk with it:
+        # run the jobs that have no transcript yet one per process before calling anything "missing"
+        missing = [j for j in jobs if (j[0], j[1]) not in res]
+        if missing:
+            for o in ex.map(one, [[j] for j in missing]):
+                res.update(o)
     return res
 
 
